@@ -9,6 +9,7 @@ import (
 	"fmt"
 	"net"
 	"runtime"
+	"runtime/debug"
 	"sort"
 	"strings"
 	"sync"
@@ -141,11 +142,13 @@ type fipInformerStub struct {
 	handlers []cache.ResourceEventHandler
 }
 
-func (s *fipInformerStub) AddEventHandler(h cache.ResourceEventHandler) { s.handlers = append(s.handlers, h) }
+func (s *fipInformerStub) AddEventHandler(h cache.ResourceEventHandler) {
+	s.handlers = append(s.handlers, h)
+}
 
 type fipInformer struct{ stub *fipInformerStub }
 
-func (f *fipInformer) Informer() cache.SharedIndexInformer      { return f.stub }
+func (f *fipInformer) Informer() cache.SharedIndexInformer   { return f.stub }
 func (f *fipInformer) Lister() galaxylister.FloatingIPLister { return nil }
 
 // PodEvent is a queued informer notification.
@@ -157,20 +160,20 @@ type PodEvent struct {
 
 // PodRec is the harness' record of one pod incarnation.
 type PodRec struct {
-	Name     string
-	UID      string
-	WL       int
-	Node     string   // node of the applied binding
-	Bound    bool     // binding applied by the API server
-	Payload  []string // IPs in the applied binding annotation, in order
-	PayloadInfos []constant.IPInfo
-	Filtered []string // nodes returned by the last successful Filter of this incarnation (nil = none)
-	FilterOn int      // plugin generation the filter ran on
-	Deleted  bool
-	Phase    corev1.PodPhase
-	BoundAt  int // step
+	Name           string
+	UID            string
+	WL             int
+	Node           string   // node of the applied binding
+	Bound          bool     // binding applied by the API server
+	Payload        []string // IPs in the applied binding annotation, in order
+	PayloadInfos   []constant.IPInfo
+	Filtered       []string // nodes returned by the last successful Filter of this incarnation (nil = none)
+	FilterOn       int      // plugin generation the filter ran on
+	Deleted        bool
+	Phase          corev1.PodPhase
+	BoundAt        int // step
 	CloudSeqAtBind int
-	Key      string
+	Key            string
 }
 
 func (p *PodRec) Live() bool {
@@ -186,7 +189,7 @@ type World struct {
 	Ext    *extfake.Clientset
 
 	podIdx, nodeIdx, stsIdx, dpIdx, poolIdx, crdIdx cache.Indexer
-	crTruth, crView                              map[string]int
+	crTruth, crView                                 map[string]int
 
 	Plugin    *schedulerplugin.FloatingIPPlugin
 	PluginGen int
@@ -198,10 +201,10 @@ type World struct {
 	ConfText string
 
 	// informer model for pods: q1 = deltas not yet applied to the lister, q2 = notifications not yet handled
-	Lag     bool
-	q1      []PodEvent
-	q2      []PodEvent
-	Pending []*pendingUnbind // unbind work popped from the plugin's channel
+	Lag      bool
+	q1       []PodEvent
+	q2       []PodEvent
+	Pending  []*pendingUnbind // unbind work popped from the plugin's channel
 	lagOther bool
 
 	Pods    map[string]*PodRec // live record per pod name (latest incarnation)
@@ -209,17 +212,17 @@ type World struct {
 	uidSeq  int
 
 	// fault injection / tracing of galaxy-ipam's API calls
-	inOp     bool
-	curOp    int
-	callNo   int
-	Trace    []APICall
-	FullTrace []APICall // every API call of galaxy-ipam over the whole history (k = index within its op)
-	opCallNo int
-	lastTraceOp int
-	fault    *Fault
-	faultHit bool
+	inOp         bool
+	curOp        int
+	callNo       int
+	Trace        []APICall
+	FullTrace    []APICall // every API call of galaxy-ipam over the whole history (k = index within its op)
+	opCallNo     int
+	lastTraceOp  int
+	fault        *Fault
+	faultHit     bool
 	faultHitEver bool
-	crashed  bool
+	crashed      bool
 
 	// scheduler hook (nil in sequential mode)
 	sched *Scheduler
@@ -376,12 +379,23 @@ func (w *World) StartPlugin() error {
 func (w *World) runOp(f func()) (crashed bool) {
 	done := make(chan struct{})
 	w.inOp = true
+	var pv interface{}
+	var pstack []byte
 	go func() {
 		defer close(done)
+		defer func() {
+			if r := recover(); r != nil {
+				pv, pstack = r, debug.Stack()
+			}
+		}()
 		f()
 	}()
 	<-done
 	w.inOp = false
+	if pv != nil {
+		// a panic of the code under test: re-raise it in the caller's goroutine, where the property runner turns it into a failure
+		panic(fmt.Sprintf("%v\n%s", pv, pstack))
+	}
 	return w.crashed
 }
 
@@ -1062,3 +1076,17 @@ var _ = context.TODO
 func bindArgs(p *PodRec, node string) *schedulerapi.ExtenderBindingArgs {
 	return &schedulerapi.ExtenderBindingArgs{PodName: p.Name, PodNamespace: NS, PodUID: types.UID(p.UID), Node: node}
 }
+
+// EniPodSpec is a pod spec requesting the floating-IP resource.
+func EniPodSpec() corev1.PodSpec { return eniPodSpec() }
+
+// InjectPod puts an arbitrary pod object into truth and lister (used by the robustness checks).
+func (w *World) InjectPod(pod *corev1.Pod) {
+	if w.Kube.Tracker().Add(pod) != nil {
+		_ = w.Kube.Tracker().Update(podGVR, pod, pod.Namespace)
+	}
+	_ = w.podIdx.Update(pod)
+}
+
+// RunGuarded runs f as a galaxy-ipam operation (own goroutine, waits for it).
+func (w *World) RunGuarded(f func()) { w.runOp(f) }
